@@ -29,6 +29,7 @@
 import RattrProofs.Lemmas.Visit
 import RattrProofs.Lemmas.VisitSpec
 import RattrProofs.Lemmas.VisitCover
+import RattrProofs.Lemmas.FileAnalyser
 
 namespace Rattr.C01
 open Rattr Rattr.FnA Rattr.Strs Rattr.AccessSpec
@@ -489,5 +490,112 @@ example : fragL (dirtyKeys env0 (S "m") root1) ⟨true, false, false⟩
 
 /-- `C01_unnameable_base_visited` on `(a + b).x`. -/
 example : (binOp (nm "a") (nm "b")).isNameable = false := rfl
+
+end Rattr.C01
+
+/-! ## Stage S4 inside the model: which callables get an IR, under which key, in which context
+(`RattrModel/FileAnalyser.lean`, tied by op `analyse_file`, py/props/filestage.py)
+
+"for every function, named lambda, class initialiser and static method that rattr analyses":
+each such callable's entry is `FnA.analyse` of its body in the context AT THAT MOMENT, so every
+theorem above about `analyse` applies to every entry of the FileIr. -/
+
+namespace Rattr.C01
+open Rattr Rattr.FnA Rattr.Strs Rattr.FileA Rattr.RootCtx
+
+theorem tieA_fileAnalyser_visitors :
+    FileA.sameMembers Generated.RC.fileAnalyserVisitors FileA.fileVisitors = true := by decide
+
+theorem tieA_classAnalyser_visitors :
+    FileA.sameMembers Generated.RC.classAnalyserVisitors FileA.classVisitors = true := by decide
+
+/-- `fileAnalyser_skips_ignored`: a `def` decorated `rattr_ignore`, or whose name an exclusion
+pattern matches, leaves the FileIr (and the whole state) untouched — it has no entry. -/
+theorem fileAnalyser_skips_ignored (env : Env) (mn : Str) (f : Facts) (name : Str) (ps : Params)
+    (body : List Node) (decos : List Ann.Deco) (a : Bool) (s : FState)
+    (h : Ann.hasAnnotation Ann.nIgnore decos = .ok true ∨
+         (Ann.hasAnnotation Ann.nIgnore decos = .ok false ∧ name ∈ f.excluded)) :
+    visitTop env mn f (.funcDef name ps body decos a) s = .ok s := by
+  rw [visitTop.eq_def]
+  rcases h with h | ⟨h, hx⟩
+  · exact visitFuncDef_ignored env mn f name ps body decos s h
+  · exact visitFuncDef_excluded env mn f name ps body decos s h hx
+
+/-- … and so does a whole class (its initialiser AND its static methods). -/
+theorem fileAnalyser_skips_ignored_class (env : Env) (mn : Str) (f : Facts) (name : Str) (bases : List Node)
+    (body : List Top) (decos : List Ann.Deco) (s : FState)
+    (h : Ann.hasAnnotation Ann.nIgnore decos = .ok true ∨
+         (Ann.hasAnnotation Ann.nIgnore decos = .ok false ∧ name ∈ f.excluded)) :
+    visitTop env mn f (.classDef name bases body decos) s = .ok s := by
+  rw [visitTop.eq_def]
+  rcases h with h | ⟨h, hx⟩
+  · exact visitClassDef_ignored env mn f name bases body decos s h
+  · exact visitClassDef_excluded env mn f name bases body decos s h hx
+
+/-- `fileAnalyser_uses_fnA` (module-level def): the entry is keyed by the `Func` the context holds
+for the name and its IR is `FnA.analyse` of the body in the current context; the key is appended
+to (or keeps its place in) the FileIr. -/
+theorem fileAnalyser_uses_fnA (env : Env) (mn : Str) (f : Facts) (name : Str) (ps : Params) (body : List Node)
+    (decos : List Ann.Deco) (a : Bool) (s : FState) (fn : Sym) (t : St)
+    (hi : Ann.hasAnnotation Ann.nIgnore decos = .ok false) (hx : name ∉ f.excluded)
+    (hfn : getFunc s.ctx name = some fn) (hr : Ann.hasAnnotation Ann.nResults decos = .ok false)
+    (hc : analyserFor env mn (some fn) = none) (ht : FnA.analyse env mn s.ctx ps body = .ok t) :
+    visitTop env mn f (.funcDef name ps body decos a) s = .ok (stored s fn t) ∧
+    Dict.get? (stored s fn t).ir fn = some (FileA.irOf t) ∧
+    Dict.keys s.ir <+: Dict.keys (stored s fn t).ir := by
+  refine ⟨?_, ?_, ?_⟩
+  · rw [visitTop.eq_def]; exact visitFuncDef_analysed env mn f name ps body decos s fn t hi hx hfn hr hc ht
+  · exact Dict.get?_set_same s.ir fn (FileA.irOf t)
+  · exact Dict.keys_set_prefix s.ir fn (FileA.irOf t)
+
+/-- … named lambda -/
+theorem fileAnalyser_uses_fnA_lambda (env : Env) (mn : Str) (f : Facts) (x : Str) (c : ECtx) (extra : List Node)
+    (ps : Params) (body : Node) (s : FState) (fn : Sym) (t : St) (hfn : getFunc s.ctx x = some fn)
+    (ht : FnA.analyse env mn s.ctx ps [body] = .ok t) :
+    visitTop env mn f (.assign [.name x c] extra (some (.lam ps body))) s = .ok (stored s fn t) := by
+  rw [visitTop.eq_def]; exact lambdaAssign_analysed env mn x c ps body s fn t hfn ht
+
+/-- … static method: registered as `Func "C.m"` DURING the class visit, analysed in that context -/
+theorem fileAnalyser_uses_fnA_static (env : Env) (mn : Str) (cls : Str) (m : Method) (s : FState) (cir : ClassIr)
+    (k : FState → ClassIr → FOut) (t : St)
+    (ht : FnA.analyse env mn (Context.add s.ctx (funcSym (cls ++ '.' :: m.name) m.ps.iface)) m.ps m.body = .ok t) :
+    visitStatic env mn cls m s cir k =
+      k { ctx := t.ctx, diags := s.diags ++ t.diags, ir := s.ir }
+        (Dict.set cir (funcSym (cls ++ '.' :: m.name) m.ps.iface) (FileA.irOf t)) :=
+  visitStatic_analysed env mn cls m s cir k t ht
+
+/-- … class initialiser: the class symbol is replaced `with_init` first -/
+theorem fileAnalyser_uses_fnA_init (env : Env) (mn : Str) (cls : Str) (decos : List Ann.Deco) (init : Method)
+    (s : FState) (cir : ClassIr) (k : FState → ClassIr → FOut) (sy : Sym) (t : St)
+    (hi : Ann.hasAnnotation Ann.nIgnore decos = .ok false) (hsy : getClass s.ctx cls = some sy)
+    (hr : Ann.hasAnnotation Ann.nResults decos = .ok false)
+    (ht : FnA.analyse env mn (updateSymbol s.ctx { sy with iface := some init.ps.iface, callable := true })
+            init.ps init.body = .ok t) :
+    visitInitialiser env mn cls decos init s cir k =
+      k { ctx := t.ctx, diags := s.diags ++ t.diags, ir := s.ir }
+        (Dict.set cir { sy with iface := some init.ps.iface, callable := true } (FileA.irOf t)) :=
+  visitInitialiser_analysed env mn cls decos init s cir k sy t hi hsy hr ht
+
+/-- `fileAnalyser_keys` (step form): the entries of a class are appended to the FileIr in the order
+`ClassAnalyser` produced them; nothing already there is removed or reordered. -/
+theorem fileAnalyser_keys_class_appended (ir : Dict Sym IR) (cir : ClassIr) :
+    Dict.keys ir <+: Dict.keys (mergeClassIr ir cir) := mergeClassIr_prefix ir cir
+
+/-- … and statements that define no callable contribute no key. -/
+theorem fileAnalyser_keys_imports_none (env : Env) (mn : Str) (f : Facts) (a : List Alias) (s : FState) :
+    visitTop env mn f (.importStmt a) s = .ok s := imports_contribute_nothing env mn f a s
+
+def envF : Env := { ctxEnv := { prims := [], literals := [] }, analysers := [] }
+def modF : List Top :=
+  [.funcDef "f".toList ⟨[], ["a".toList], none, [], none⟩ [.ret [.attr (.name "a".toList .load) "x".toList .load]] [] false,
+   .funcDef "g".toList ⟨[], [], none, [], none⟩ [] [⟨.named Ann.nIgnore, none⟩] false,
+   .classDef "C".toList [] [.funcDef "sm".toList ⟨[], ["v".toList], none, [], none⟩ [] [⟨.named Ann.nStatic, none⟩] false] []]
+
+/-- TEST (kernel evaluation of both stages on `def f(a): return a.x` / `@rattr_ignore def g()` /
+`class C: @staticmethod def sm(v)`): keys `f`, `C.sm`, in order; `g` has no entry. -/
+theorem fileAnalyser_test_keys :
+    (match analyseFile envF "m".toList {} [] modF with
+     | .ok (ir, _) => ir.map (fun p => p.1.name)
+     | _ => []) = ["f".toList, "C.sm".toList] := by decide +kernel
 
 end Rattr.C01
